@@ -9,6 +9,8 @@ package main
 //   json     JSON expressions:       (json) expression.Variables()
 //   hcldec   bodies under a spec:    hcldec.Variables(body, spec)
 //   dynblock bodies with "dynamic":  dynblock.VariablesHCLDec / ExpandVariablesHCLDec
+//   hcldec-merged / dynblock-merged  the same on hcl.MergeBodies of fragments parsed under ONE name (merged.go)
+//   hcldec-synth / dynblock-synth    the same on zero-range ASTs and hcltest mocks (merged.go)
 //
 // For each case the outcome (value + diagnostics, minus the "Did you mean"
 // suggestion of "Unknown variable") is computed in the full scope, in the scope
@@ -85,6 +87,12 @@ var corpus = []corpusItem{
 	{"native", `"%{ for x in [[1, 2], [3]] }%{ for x in x }${x}%{ endfor }/${x[0]};%{ endfor }${x}"`},
 	{"template", `%{ for x in [["a", "b"], ["c"]] }%{ for x in x }${x}%{ endfor }/${x[0]};%{ endfor }${x}`},
 	{"json", `{"%{ for x in [[1], [2]] }%{ for x in x }${x}%{ endfor }${x[0]}%{ endfor }": "${[for v in [[v]] : [[for v in v : v], v]]}"}`},
+	// bodies that are not one parsed file (merged.go): fragments of identical layout under one name; zero ranges
+	{"hcldec-merged", "#--- merged file=\"\" via=MergeBodies\n#--- fragment native\na = s\nd = s\nf = s\nlst {\n  x = s\n}\ntup {\n  x = s\n}\nmp \"k1\" {\n  x = s\n}\n#--- fragment native\nb = t\ne = t\ng = t\nlst {\n  x = t\n}\ntup {\n  x = t\n}\nmp \"k2\" {\n  x = t\n}\n"},
+	{"hcldec-merged", "#--- merged file=\"main.tf.json\" via=MergeFiles\n#--- fragment json\n{\"a\": \"${s}\", \"d\": \"${n}\", \"f\": \"${l}\", \"lst\": {\"x\": \"${s}\"}, \"st\": {\"x\": \"${s}\"}}\n#--- fragment json\n{\"b\": \"${t}\", \"e\": \"${m}\", \"g\": \"${o}\", \"lst\": {\"x\": \"${t}\"}, \"st\": {\"x\": \"${t}\"}}\n#--- fragment native\nc = n\n"},
+	{"hcldec-synth", "#--- synthetic mode=mock\na = s\nb = t\nc = n\nd = m\ne = l\nf = o.a\ng = [s, t]\nlst {\n  x = s\n}\nlst {\n  x = t\n  n = m\n}\nblk {\n  x = l\n  y = t\n}\n"},
+	{"dynblock-merged", "#--- merged file=\"<inline>\" via=MergeBodies\n#--- fragment native\na = s\nf = s\ndynamic \"lst\" {\n  for_each = l\n  content {\n    x = lst.value\n    n = n\n  }\n}\n#--- fragment native\nb = t\ng = t\ndynamic \"lst\" {\n  for_each = d\n  content {\n    x = lst.value\n    n = m\n  }\n}\n#--- fragment json\n{\"dynamic\": {\"tup\": {\"for_each\": \"${tp}\", \"iterator\": \"it\", \"content\": {\"x\": \"${it.value}\", \"y\": \"${s}\"}}}}\n"},
+	{"dynblock-synth", "#--- synthetic mode=ast-zero\na = s\nb = t\nf = n\ng = m\ndynamic \"lst\" {\n  for_each = l\n  content {\n    x = \"${lst.key}${t}\"\n    n = n\n    dynamic \"inner\" {\n      for_each = [lst.value, s]\n      iterator = it\n      content {\n        z = it.value\n      }\n    }\n  }\n}\nmp \"k1\" {\n  x = s\n  n = m\n}\n"},
 }
 
 type caseData struct {
@@ -143,6 +151,8 @@ func build(kind string, seed uint64, text *string) *caseData {
 	}
 	if kind == "hcldec" || kind == "dynblock" {
 		cd.sh = genSpec(r, kind == "dynblock")
+	} else if isBodyX(kind) {
+		cd.sh = genSpecX(r, isDynKind(kind)) // merged.go
 	}
 	// generation of the text (always, to recover generation-time knowledge; the
 	// replayed text replaces it when it differs)
@@ -170,10 +180,19 @@ func build(kind string, seed uint64, text *string) *caseData {
 	case "hcldec", "dynblock":
 		cd.bg = &bodyGen{g: g, r: r, sh: cd.sh, dyn: kind == "dynblock", feat: cd.feat, iters: map[string]bool{}, freeUse: map[string]bool{}}
 		gen = cd.bg.gen()
+	case "hcldec-merged", "dynblock-merged", "hcldec-synth", "dynblock-synth":
+		// bodies that are not one parsed file (merged.go)
+		cd.bg = &bodyGen{g: g, r: r, sh: cd.sh, dyn: isDynKind(kind), feat: cd.feat, iters: map[string]bool{}, freeUse: map[string]bool{}}
+		if strings.HasSuffix(kind, "-merged") {
+			gen = cd.bg.genMerged()
+		} else {
+			cd.feat["stream:synthetic-zero-ranges"]++
+			gen = "#--- synthetic mode=" + r.Pick("ast-zero", "mock") + "\n" + cd.bg.gen()
+		}
 	}
 	// mutated stream: byte-level edits of a generated text (most no longer parse; those
 	// that do have shapes the grammar-directed generator does not produce)
-	if r.Chance(0.08) {
+	if r.Chance(0.08) && !isBodyX(kind) {
 		gen = hv.Mutate(r, gen)
 		cd.tree, cd.bg = nil, nil
 		cd.feat["stream:mutated"]++
@@ -219,8 +238,12 @@ func runCase(rep *hv.Report, cd *caseData) {
 	r := hv.NewRng(cd.seed, 708) // perturbation choices
 	before := len(rep.Failures)
 	rep.Hist("kind:" + cd.kind)
-	stripAllSuggestions = cd.kind == "hcldec" || cd.kind == "dynblock"
+	stripAllSuggestions = cd.kind == "hcldec" || cd.kind == "dynblock" || isBodyX(cd.kind)
 	switch cd.kind {
+	case "hcldec-merged", "dynblock-merged":
+		runMerged(rep, r, input, cd.text, isDynKind(cd.kind), cd.sh, cd.ctx)
+	case "hcldec-synth", "dynblock-synth":
+		runSynth(rep, r, input, cd.text, isDynKind(cd.kind), cd.sh, cd.ctx)
 	case "native":
 		runNative(rep, r, input, cd.text, cd.ctx, false)
 	case "template":
@@ -249,7 +272,7 @@ func runCase(rep *hv.Report, cd *caseData) {
 
 func run(cfg *hv.RunCfg) error {
 	rep := hv.NewReport("C07", cfg.Seed)
-	rep.Rule = "per case: a context chain of 1-3 frames (hv.EvalGen.GenScope: variables of every cty kind, nulls, refined unknowns, marks) plus EXTRA variables named like for/template-for/dynamic iterators; source text from the typed expression generator (hv.EvalGen), wrapped with probability ~1/4 under for expressions / template for directives whose iterator shadows a scope variable; NEST stream (25% of native, 40% of template, ~20% of JSON strings, ~8% of body attributes): for expressions and template for directives over a pool of 2-3 names, so that nested / sibling / shadowing scopes bind equal names, key == value variable, a for mentions its own name in its collection, and names are used before, inside and AFTER the for that binds them, in collection, key, value, condition and directive position (what each text exercises is measured on its AST: histogram forscope:*); the first 450 (thorough: 3000) native nest cases are also model cases (Eval/EvalCheck.v: Variables() occurrence list, value, diagnostics); kinds native 40%, template 10%, json 15%, hcldec 15% (random ObjectSpec of Attr/Default/Block/BlockList/BlockMap/BlockTuple/BlockSet/BlockObject/BlockAttrs specs, 0-3 blocks per type, nested block lists), dynblock 20% (the same with dynamic blocks: iterator attribute, labels, nested dynamic blocks, static blocks inside content, iterator names also used free); 8% of the texts are byte-mutated (hv.Mutate); non-trivial = source longer than 3 bytes; distinct by SHA-256 of (kind, case seed, text)"
+	rep.Rule = "per case: a context chain of 1-3 frames (hv.EvalGen.GenScope: variables of every cty kind, nulls, refined unknowns, marks) plus EXTRA variables named like for/template-for/dynamic iterators; source text from the typed expression generator (hv.EvalGen), wrapped with probability ~1/4 under for expressions / template for directives whose iterator shadows a scope variable; NEST stream (25% of native, 40% of template, ~20% of JSON strings, ~8% of body attributes): for expressions and template for directives over a pool of 2-3 names, so that nested / sibling / shadowing scopes bind equal names, key == value variable, a for mentions its own name in its collection, and names are used before, inside and AFTER the for that binds them, in collection, key, value, condition and directive position (what each text exercises is measured on its AST: histogram forscope:*); the first 450 (thorough: 3000) native nest cases are also model cases (Eval/EvalCheck.v: Variables() occurrence list, value, diagnostics); kinds native 40%, template 10%, json 15%, hcldec 15% (random ObjectSpec of Attr/Default/Block/BlockList/BlockMap/BlockTuple/BlockSet/BlockObject/BlockAttrs specs, 0-3 blocks per type, nested block lists), dynblock 20% (the same with dynamic blocks: iterator attribute, labels, nested dynamic blocks, static blocks inside content, iterator names also used free); of the hcldec / dynblock cases 16% are the MERGED-SAME-NAME stream (2-4 fragments parsed under ONE display name - \"\", <inline>, main.tf ... - with identical layout: the same text with other attribute names / block types / labels of the same length and the variables renamed to variables of the same length, native, JSON and mixed, joined by hcl.MergeBodies / MergeFiles; specs also with both arms of a DefaultSpec reading attributes, TupleSpec or a single Default/Block* spec at the top) and 11% the SYNTHETIC-ZERO-RANGES stream (a generated body with every hcl.Range of its AST zeroed, or rebuilt from hcltest.MockBody / MockExprVariable / MockExprTraversal / MockExprList / MockExprLiteral / hcl.StaticExpr): scope oracle on Decode / Expand+Decode as for single files, plus must <= reported <= may on root names against the harness's own reading of the fragments (own JSON reader, own scope-aware walker, spec shape), for hcldec.Variables, dynblock.VariablesHCLDec / ExpandVariablesHCLDec and hand-driven WalkVariables / WalkExpandVariables; 8% of the other texts are byte-mutated (hv.Mutate); non-trivial = source longer than 3 bytes; distinct by SHA-256 of (kind, case seed, text)"
 	if cfg.Replay != "" {
 		b, err := os.ReadFile(cfg.Replay)
 		if err != nil {
@@ -305,6 +328,9 @@ func run(cfg *hv.RunCfg) error {
 			kind = "hcldec"
 		default:
 			kind = "dynblock"
+		}
+		if kind == "hcldec" || kind == "dynblock" {
+			kind = subStream(kind, seed) // 16% merged-same-name, 11% synthetic-zero-ranges (merged.go)
 		}
 		cd := build(kind, seed, nil)
 		if cd.nest && len(cq.cases) < nestCap {
